@@ -316,6 +316,10 @@ def altrepr(x, depth=0):
         if ns % 1000 == 0 and _ALT[0] % 2 == 1:
             us = ns // 1000
             return datetime.time(us // 3600000000, us // 60000000 % 60, us // 1000000 % 60, us % 1000000)
+        if ns % 1000 == 0 and _ALT[0] % 4 == 0:
+            return np.timedelta64(ns // 1000, "us")
+        if ns % 1000000000 == 0 and _ALT[0] % 4 == 2:
+            return np.timedelta64(ns // 1000000000, "s")
         return np.timedelta64(ns, "ns")
     if isinstance(x, datetime.date) and not isinstance(x, datetime.datetime):
         _ALT[0] += 1
